@@ -14,6 +14,6 @@ ASSUMPTIONS = [
 def tq(name, nev, fork=False, kf=(), timeout=900, ncalls=1, evp=None, forkp=None, leak=False):
     defs = (() if evp is None else ("EVP0=%d" % evp[0], "EVP1=%d" % evp[1])) + (() if forkp is None else ("FORKP=%d" % forkp,)) + ("NEV=%d" % nev, "NCALLS=%d" % ncalls, "VL_BOUNDARY_HOOK=1") + (("FORK=1",) if fork else ()) + tuple("KF_" + k for k in kf)
     return Q(name=name, harness="C09_tsrm.c", units=UNITS, models=("vlibc.c", "vthread.c"), variant="TS", defines=defs, unwind=7,
-             flags=("--object-bits", "10") + (("--memory-leak-check",) if leak else ()), timeout=timeout, mem_gb=4,
+             flags=("--object-bits", "12" if fork else "10") + (("--memory-leak-check",) if leak else ()), timeout=timeout, mem_gb=8 if fork else 4,
              bounds="%d wrapped call(s) of the thread under test; %d effect(s) of other threads (enter/leave of threads 2, 3), each at %s of its lock acquisitions%s" % (
                  ncalls, nev, "an arbitrary one" if evp is None else "acquisition #%d / #%d" % evp, "; fork by thread 2 at any lock/unlock boundary, child performs a complete wrapped call" if fork else ""))
